@@ -40,6 +40,7 @@ Section Main.
   Hypothesis Hu : forall z, (0 <= z < 2 ^ 64)%Z -> p_u64toa P z = utoa (Z.to_N z).
   Hypothesis Hq : forall s d, p_quote P s d = quote s d.
   Hypothesis Hbr : b_recurse P <> b_empty_arr P.
+  Hypothesis Hnull : EncOnlyOmitNull co = false.
 
   (* finite floats whose digit oracle the executor prints unchanged *)
   Definition fok (k : kind) (bits : N) (txt : option bytes) : Prop :=
@@ -731,6 +732,133 @@ Section Main.
     sbind (enc_fields f (TStruct sz ph fs) (VStruct vs) addr fs true) (fun items => SOk ([123%N] ++ items ++ [125%N])).
   Proof. intros. destruct addr; reflexivity. Qed.
 
+
+  (* ---- field options: `,string` on scalars, omitempty tests *)
+  Definition code_okq (t : ty) (c : list instr) (pc : nat) (q : bool) : Prop :=
+    forall flg prog r rest o k rqs v fuel addr res,
+      has_opts flg (b_empty_arr P) = false ->
+      code_at prog pc c -> loc e (rp r) t v -> has_type t v ->
+      std_enc e Qraw fuel t v addr q = SOk res ->
+      (N.of_nat (length k + need v) <= p_stack P)%N ->
+      exists n o' rqs', steps n (mks prog pc flg r rest o k rqs) (mks prog (pc + length c) flg r rest o' k rqs') /\
+                        out_bytes o' = out_bytes o ++ res.
+
+  Lemma code_okq_false : forall t c pc, code_ok t c pc -> code_okq t c pc false.
+  Proof. intros t c pc H. exact H. Qed.
+
+  Lemma kind_eq_dec : forall a b : kind, {a = b} + {a <> b}.
+  Proof. decide equality. Qed.
+
+  Lemma std_enc_scalar_q : forall k f v addr, scalar_kind k = true -> k <> KString -> has_type (TPrim k) v ->
+    std_enc e Qraw f (TPrim k) v addr true =
+    sbind (std_enc e Qraw f (TPrim k) v addr false) (fun x => SOk ([34%N] ++ x ++ [34%N])).
+  Proof.
+    intros k f v addr Hk Hs Hv. destruct f as [|f]; [reflexivity|].
+    inversion Hv as [b0 | k0 z Hr | k0 bits txt Hk0 Hfok | s0 | | | | |  | ]; subst.
+    - destruct addr, b0; reflexivity.
+    - unfold int_range_ok in Hr. destruct k; cbn in Hr; try contradiction; destruct addr; reflexivity.
+    - destruct Hk0 as [-> | ->]; destruct addr, txt; reflexivity.
+    - contradiction Hs; reflexivity.
+  Qed.
+
+  Lemma quoted_ok : forall k cf tab cpv sp pc c, scalar_kind k = true -> tab_above tab (TPrim k) ->
+    compileStructFieldStr e (compileOne e co cf) tab cpv sp pc (TPrim k) = COk c -> code_okq (TPrim k) c pc true.
+  Proof.
+    intros k cf tab cpv sp pc c Hk Htab Hc. unfold compileStructFieldStr in Hc.
+    rewrite (frag_no_marshaler e e (TPrim k) pc cpv Hk) in Hc.
+    change (is_ptr e (TPrim k)) with false in Hc. cbv iota in Hc.
+    assert (Hsa : stringable e (TPrim k) = true) by (destruct k; try discriminate Hk; reflexivity).
+    rewrite Hsa in Hc. cbn [negb] in Hc. cbv iota in Hc. unfold cbind in Hc.
+    destruct (kind_eq_dec k KString) as [->|Hns].
+    - (* a string: OP_quote *)
+      cbn in Hc. injection Hc as <-.
+      intros flg prog r rest o kk rqs v fuel addr res Hflg Hcode Hloc Hty Hstd Hstk.
+      assert (Hleaf : leaf e (rp r) = Some (TPrim KString, strip v)) by (apply (loc_leaf e _ _ _ Hloc); [reflexivity|cbn; lia]).
+      inversion Hty as [ | k0 z Hr | k0 bits txt Hk0 Hfok | s0 | | | | |  | ]; subst; [unfold int_range_ok in Hr; cbn in Hr; contradiction|destruct Hk0; discriminate|].
+      cbn [strip] in Hleaf. destruct fuel as [|fuel]; [discriminate Hstd|]. destruct addr; cbn in Hstd; injection Hstd as <-;
+        (cbn [length]; rewrite Nat.add_1_r; eexists 1, _, rqs; split; [apply steps_one; rewrite (step_quote P e co prog flg rest rqs pc r o kk _ _ (code_hd _ _ _ _ Hcode) Hleaf); reflexivity
+                                   |rewrite out_cons, Hq; reflexivity]).
+    - assert (Hnk : (negb (is_number e (TPrim k)) && is_kind e (TPrim k) KString) = false) by (destruct k; try reflexivity; contradiction Hns; reflexivity).
+      rewrite Hnk in Hc. unfold compileStructFieldQuoted, cbind, one in Hc.
+      destruct (compileOne e co cf tab cpv sp (pc + 0 + 1) (TPrim k) cpv) as [c1|] eqn:Ec1; [|discriminate Hc]. injection Hc as <-.
+      pose proof (scalar_ok k cf tab cpv sp (pc + 0 + 1) cpv c1 Hk Htab Ec1) as Hc1.
+      intros flg prog r rest o kk rqs v fuel addr res Hflg Hcode Hloc Hty Hstd Hstk.
+      rewrite (std_enc_scalar_q k fuel v addr Hk Hns Hty) in Hstd. unfold sbind in Hstd.
+      destruct (std_enc e Qraw fuel (TPrim k) v addr false) as [x|] eqn:Ex; [|discriminate Hstd]. injection Hstd as <-.
+      assert (I0 : nth_error prog pc = Some (OP_byte 34)) by (eapply code_hd; exact Hcode).
+      pose proof (code_at_app_r prog pc [OP_byte 34] (c1 ++ [OP_byte 34]) Hcode) as H1. cbn [length] in H1.
+      pose proof (code_at_app_l _ _ _ _ H1) as C1. pose proof (code_at_app_r _ _ _ _ H1) as H2.
+      assert (I1 : nth_error prog (pc + 1 + length c1) = Some (OP_byte 34)) by (eapply code_hd; exact H2).
+      replace (pc + 0 + 1) with (pc + 1) in Hc1 by lia.
+      destruct (Hc1 flg prog r rest ([34%N] :: o) kk rqs v fuel addr x Hflg C1 Hloc Hty Ex Hstk) as (n & o1 & rq1 & Hst & Ho).
+      exists (1 + n + 1), ([34%N] :: o1), rq1. split.
+      + eapply steps_S; [apply step_byte; exact I0|]. replace (S pc) with (pc + 1) by lia.
+        eapply steps_trans; [exact Hst|]. apply steps_one. rewrite (step_byte P e co prog flg rest rq1 _ r o1 kk 34%N I1). f_equal. f_equal.
+        cbn [length app]. rewrite app_length. cbn [length]. lia.
+      + rewrite out_cons, Ho, out_cons. rewrite <- !app_assoc. reflexivity.
+  Qed.
+
+  Definition omit_op (t : ty) (L : nat) : instr :=
+    match t with
+    | TPrim (KBool | KInt8 | KUint8) => OP_is_zero_1 L
+    | TPrim (KInt16 | KUint16) => OP_is_zero_2 L
+    | TPrim (KInt32 | KUint32) => OP_is_zero_4 L
+    | TPrim (KInt | KInt64 | KUint | KUint64) => OP_is_zero_8 L
+    | TPrim KString | TSlice _ => OP_is_nil_p1 L
+    | _ => OP_is_nil L
+    end.
+
+  Lemma omit_code : forall t L, omittable t = true -> compileStructFieldEmpty e t L = COk [omit_op t L].
+  Proof. intros t L H. destruct t as [k| | | | | | |]; try discriminate H; [destruct k; try discriminate H|..]; reflexivity. Qed.
+
+  Lemma pattern_zero : forall k w sg z, int_bits k = Some (w, sg) -> (0 < w)%N -> int_range_ok k z -> (pattern w z =? 0)%Z = (z =? 0)%Z.
+  Proof.
+    intros k w sg z Hb Hw Hr. unfold int_range_ok in Hr. rewrite Hb in Hr. unfold pattern.
+    assert (Hh : (2 ^ Z.of_N w = 2 * 2 ^ (Z.of_N w - 1))%Z) by (rewrite <- Z.pow_succ_r by lia; f_equal; lia).
+    assert (Hp : (0 < 2 ^ (Z.of_N w - 1))%Z) by (apply Z.pow_pos_nonneg; lia).
+    destruct sg.
+    - destruct (Z_lt_ge_dec z 0) as [Hn|Hn].
+      + assert (Hm : (z mod 2 ^ Z.of_N w = z + 2 ^ Z.of_N w)%Z) by (symmetry; apply Z.mod_unique with (q := (-1)%Z); lia).
+        rewrite Hm. assert ((z + 2 ^ Z.of_N w =? 0)%Z = false) as -> by (apply Z.eqb_neq; lia). symmetry. apply Z.eqb_neq. lia.
+      + rewrite Z.mod_small by lia. reflexivity.
+    - rewrite Z.mod_small by lia. reflexivity.
+  Qed.
+
+  Lemma omit_step : forall t x prog pc flg r rest o k rqs L, omittable t = true -> (0 < sizeof e t)%N ->
+    nth_error prog pc = Some (omit_op t L) -> loc e (rp r) t x -> has_type t x ->
+    step P e co (mks prog pc flg r rest o k rqs) =
+    Running (mks prog (if is_empty_value e t x then L else S pc) flg r rest o k rqs).
+  Proof.
+    intros t x prog pc flg r rest o k rqs L Ho Hsz Hins Hloc Hty.
+    assert (Hleaf : leaf e (rp r) = Some (t, strip x)).
+    { apply (loc_leaf e _ _ _ Hloc); [|exact Hsz]. destruct t; try discriminate Ho; reflexivity. }
+    inversion Hty as [b0 | k0 z Hr | k0 bits txt Hk0 Hfok | s0 | el | el y Hy | el | el l Hl | | ]; subst; cbn [strip] in Hleaf; try discriminate Ho.
+    - (* bool *)
+      rewrite (step_is_zero_n P e co prog flg rest rqs 1 pc r o k L (TPrim KBool) (VBool b0) (negb b0) Hins (or_introl eq_refl) Hleaf eq_refl).
+      destruct b0; reflexivity.
+    - (* integers *)
+      assert (He : is_empty_value e (TPrim k0) (VInt z) = (z =? 0)%Z) by reflexivity. rewrite He.
+      assert (Hz : forall n w sg, int_bits k0 = Some (w, sg) -> (0 < w)%N -> (8 * n = w)%N -> low_zero n (VInt z) = Some (z =? 0)%Z).
+      { intros n w sg Hb Hw Hn. cbn [low_zero]. rewrite Hn. f_equal. eapply pattern_zero; eassumption. }
+      destruct k0; try discriminate Ho; try (unfold int_range_ok in Hr; cbn in Hr; contradiction);
+        first [ rewrite (step_is_nil P e co prog flg rest rqs pc r o k L _ _ (z =? 0)%Z Hins Hleaf eq_refl); reflexivity
+              | rewrite (step_is_zero_n P e co prog flg rest rqs 1 pc r o k L _ _ _ Hins ltac:(tauto) Hleaf (Hz 1%N _ _ eq_refl eq_refl eq_refl)); reflexivity
+              | rewrite (step_is_zero_n P e co prog flg rest rqs 2 pc r o k L _ _ _ Hins ltac:(tauto) Hleaf (Hz 2%N _ _ eq_refl eq_refl eq_refl)); reflexivity
+              | rewrite (step_is_zero_n P e co prog flg rest rqs 4 pc r o k L _ _ _ Hins ltac:(tauto) Hleaf (Hz 4%N _ _ eq_refl eq_refl eq_refl)); reflexivity
+              | rewrite (step_is_zero_n P e co prog flg rest rqs 8 pc r o k L _ _ _ Hins ltac:(tauto) Hleaf (Hz 8%N _ _ eq_refl eq_refl eq_refl)); reflexivity ].
+    - destruct Hk0 as [-> | ->]; discriminate Ho.
+    - (* string *)
+      rewrite (step_is_nil_p1 P e co prog flg rest rqs pc r o k L _ _ (match s0 with [] => true | _ => false end) Hins Hleaf eq_refl).
+      destruct s0; reflexivity.
+    - (* nil pointer *)
+      rewrite (step_is_nil P e co prog flg rest rqs pc r o k L _ _ true Hins Hleaf eq_refl). reflexivity.
+    - rewrite (step_is_nil P e co prog flg rest rqs pc r o k L _ _ false Hins Hleaf eq_refl). reflexivity.
+    - (* slices *)
+      rewrite (step_is_nil_p1 P e co prog flg rest rqs pc r o k L _ _ true Hins Hleaf eq_refl). reflexivity.
+    - rewrite (step_is_nil_p1 P e co prog flg rest rqs pc r o k L _ _ (match l with [] => true | _ => false end) Hins Hleaf eq_refl).
+      destruct l; reflexivity.
+  Qed.
+
   Section Struct.
     Variables (sz : N) (ph : list (N * ty)) (fsall : list field).
     Notation ST := (TStruct sz ph fsall).
@@ -743,10 +871,12 @@ Section Main.
       {| rx := rx r0; rcond := c; rinit := rinit r0; rp := rp r0; rq := rq r0 |}.
 
     Lemma enc_fields_cons : forall f vs addr fd r first o k x,
-      f_path fd = [(o, false)] -> f_opts fd = 0%N ->
+      f_path fd = [(o, false)] -> F_omitzero fd = false ->
       nth_error ph k = Some (o, f_type fd) -> nth_error vs k = Some x ->
       enc_fields f ST (VStruct vs) addr (fd :: r) first =
-      sbind (std_enc e Qraw f (f_type fd) x addr false) (fun a =>
+      if F_omitempty fd && is_empty_value e (f_type fd) x then enc_fields f ST (VStruct vs) addr r first
+      else
+      sbind (std_enc e Qraw f (f_type fd) x addr (F_stringize fd)) (fun a =>
         sbind (enc_fields f ST (VStruct vs) addr r false) (fun rest =>
           SOk ((if first then [] else [44%N]) ++ quote (f_name fd) false ++ [58%N] ++ a ++ rest))).
     Proof.
@@ -766,7 +896,46 @@ Section Main.
              end
          end).
       rewrite Hp. cbn [nav padd]. change (0 + o)%N with o. rewrite (typed_field e sz ph fsall vs k o (f_type fd) x Hlay Hk Hx).
-      unfold F_omitempty, F_omitzero, F_stringize. rewrite Ho. cbn [N.testbit andb orb]. reflexivity.
+      rewrite Ho. cbn [andb]. rewrite orb_false_r. reflexivity.
+    Qed.
+
+    (* from the comma test on: ", name : value" and back to the struct *)
+    Lemma emit_part : forall ft v q pc0 tx, code_okq ft v (pc0 + 3) q ->
+      forall flg prog r0 rest o kk rqs c fo x fuel addr a,
+        has_opts flg (b_empty_arr P) = false ->
+        code_at prog pc0 ([OP_cond_testc (pc0 + 2); OP_byte 44; OP_text tx] ++ v ++ [OP_load]) ->
+        loc e (padd (rp r0) fo) ft x -> has_type ft x ->
+        std_enc e Qraw fuel ft x addr q = SOk a ->
+        (N.of_nat (S (length kk) + need x) <= p_stack P)%N ->
+        exists n o' rqs',
+          steps n (mks prog pc0 flg (set_p (rc r0 c) (padd (rp r0) fo)) rest o (r0 :: kk) rqs)
+                  (mks prog (pc0 + 3 + length v + 1) flg (rc r0 false) rest o' (r0 :: kk) rqs')
+          /\ out_bytes o' = out_bytes o ++ (if c then [] else [44%N]) ++ tx ++ a.
+    Proof.
+      intros ft v q pc0 tx Hcv flg prog r0 rest o kk rqs c fo x fuel addr a Hflg Hcode Hloc Hty Ea Hstk.
+      assert (I1 : nth_error prog pc0 = Some (OP_cond_testc (pc0 + 2))) by (eapply code_hd; exact Hcode).
+      assert (I2 : nth_error prog (pc0 + 1) = Some (OP_byte 44)) by (eapply code_nth; [exact Hcode|reflexivity]).
+      assert (I3 : nth_error prog (pc0 + 2) = Some (OP_text tx)) by (eapply code_nth; [exact Hcode|reflexivity]).
+      pose proof (code_at_app_r prog pc0 [OP_cond_testc (pc0 + 2); OP_byte 44; OP_text tx] (v ++ [OP_load]) Hcode) as H1. cbn [length] in H1.
+      pose proof (code_at_app_l _ _ _ _ H1) as Ccv. pose proof (code_at_app_r _ _ _ _ H1) as H2.
+      assert (I4 : nth_error prog (pc0 + 3 + length v) = Some OP_load) by (eapply code_hd; exact H2).
+      set (rfield := {| rx := rx r0; rcond := false; rinit := rinit r0; rp := padd (rp r0) fo; rq := rq r0 |}).
+      assert (Hpre : exists m1, steps m1 (mks prog pc0 flg (set_p (rc r0 c) (padd (rp r0) fo)) rest o (r0 :: kk) rqs)
+                                 (mks prog (pc0 + 3) flg rfield rest (tx :: (if c then o else [44%N] :: o)) (r0 :: kk) rqs)).
+      { destruct c.
+        - exists 2. eapply steps_S; [apply step_cond_testc; exact I1|]. cbn [rc set_p rcond rx rinit rp rq].
+          eapply steps_S; [apply step_text; exact I3|]. replace (S (pc0 + 2)) with (pc0 + 3) by lia. apply steps_O.
+        - exists 3. eapply steps_S; [apply step_cond_testc; exact I1|]. cbn [rc set_p rcond rx rinit rp rq].
+          replace (S pc0) with (pc0 + 1) by lia.
+          eapply steps_S; [apply step_byte; exact I2|]. replace (S (pc0 + 1)) with (pc0 + 2) by lia.
+          eapply steps_S; [apply step_text; exact I3|]. replace (S (pc0 + 2)) with (pc0 + 3) by lia. apply steps_O. }
+      destruct Hpre as [m1 Hpre].
+      destruct (Hcv flg prog rfield rest (tx :: (if c then o else [44%N] :: o)) (r0 :: kk) rqs x fuel addr a Hflg Ccv)
+        as (m2 & o2 & rq2 & Hst2 & Ho2); [exact Hloc|exact Hty|exact Ea|cbn [length]; lia|].
+      exists (m1 + m2 + 1), o2, rq2. split.
+      + eapply steps_trans; [eapply steps_trans; [exact Hpre|exact Hst2]|].
+        apply steps_one. rewrite step_load by exact I4. f_equal. f_equal. lia.
+      + rewrite Ho2, out_cons. destruct c; [|rewrite out_cons]; rewrite <- ?app_assoc; reflexivity.
     Qed.
 
     Lemma fields_exec : forall fs, Forall (field_ok ph) fs ->
@@ -779,92 +948,123 @@ Section Main.
         (forall k o t x, nth_error ph k = Some (o, t) -> nth_error vs k = Some x -> has_type t x) ->
         enc_fields fuel ST (VStruct vs) addr fs c = SOk items ->
         (N.of_nat (S (length kk) + need_list vs) <= p_stack P)%N ->
-        exists n o' rqs',
+        exists n o' rqs' c',
           steps n (mks prog pc flg (rc r0 c) rest o (r0 :: kk) rqs)
-                  (mks prog (pc + length code) flg (rc r0 (match fs with [] => c | _ => false end)) rest o' (r0 :: kk) rqs')
+                  (mks prog (pc + length code) flg (rc r0 c') rest o' (r0 :: kk) rqs')
           /\ out_bytes o' = out_bytes o ++ items.
     Proof.
       induction 1 as [|fd fs Hfd Hfs IH]; intros cf tab cpv sp pc code Htab Hc flg prog r0 rest o kk rqs vs c fuel addr items Hflg Hcode Hloc Hlen Hty Henc Hstk.
       - cbn in Hc. injection Hc as <-. cbn in Henc. injection Henc as <-.
-        exists 0, o, rqs. split; [cbn [length]; rewrite Nat.add_0_r; apply steps_O|rewrite app_nil_r; reflexivity].
+        exists 0, o, rqs, c. split; [cbn [length]; rewrite Nat.add_0_r; apply steps_O|rewrite app_nil_r; reflexivity].
       - destruct Hfd as (fo & Hpath & Hopts & Hin).
+        destruct (opts_ok_bits fd Hopts) as (Hoz & Hoe & Hsq).
         destruct (In_nth_error _ _ Hin) as [k Hk].
         assert (Hkx : exists x, nth_error vs k = Some x).
         { destruct (nth_error vs k) eqn:E; [eauto|]. apply nth_error_None in E. assert (k < length ph) by (apply nth_error_Some; congruence). lia. }
         destruct Hkx as [x Hx].
-        rewrite (enc_fields_cons fuel vs addr fd fs c fo k x Hpath Hopts Hk Hx) in Henc. unfold sbind in Henc.
-        destruct (std_enc e Qraw fuel (f_type fd) x addr false) as [a|] eqn:Ea; [|discriminate Henc].
-        destruct (enc_fields fuel ST (VStruct vs) addr fs false) as [restb|] eqn:Erest; [|discriminate Henc].
+        pose proof (Hty _ _ _ _ Hk Hx) as Htx.
+        pose proof (loc_field e _ _ _ _ _ _ _ _ _ Hloc Hlay Hk Hx) as Hlx.
+        pose proof (need_list_in vs x (nth_error_In _ _ Hx)) as Hnx.
+        rewrite (enc_fields_cons fuel vs addr fd fs c fo k x Hpath Hoz Hk Hx) in Henc.
         (* the code of this field *)
         cbn [fieldsCode] in Hc. unfold cbind in Hc.
         destruct (fieldCode e co (compileOne e co cf) (ST :: tab) cpv sp pc fd) as [cfd|] eqn:Ecfd; [|discriminate Hc].
         destruct (fieldsCode e co (compileOne e co cf) (ST :: tab) cpv sp (pc + length cfd) fs) as [cfs|] eqn:Ecfs; [|discriminate Hc].
         injection Hc as <-.
         unfold fieldCode in Ecfd.
-        assert (Hno : F_omitempty fd = false /\ F_omitzero fd = false /\ F_stringize fd = false).
-        { unfold F_omitempty, F_omitzero, F_stringize. rewrite Hopts. repeat split; reflexivity. }
-        destruct Hno as (Hoe & Hoz & Hst).
         assert (Harr : (match rkind_of e (f_type fd) with RArray => Nat.eqb (len_of e (f_type fd)) 0 && F_omitempty fd | _ => false end) = false).
-        { rewrite Hoe. destruct (rkind_of e (f_type fd)); try reflexivity. apply andb_false_r. }
+        { destruct (F_omitempty fd) eqn:Eo.
+          - destruct (Hoe eq_refl) as [Hom _]. destruct (f_type fd) as [kk0| | | | | | |]; try discriminate Hom; reflexivity.
+          - destruct (rkind_of e (f_type fd)); try reflexivity. apply andb_false_r. }
         rewrite Harr in Ecfd.
-        assert (Hom : forall L, omitCode e co fd L = COk []).
-        { intro L. unfold omitCode, cbind. rewrite Hoe, Hoz. destruct (rkind_of e (f_type fd)); reflexivity. }
-        rewrite !Hom in Ecfd. unfold cbind in Ecfd. rewrite Hpath in Ecfd. cbn [pathCode app length] in Ecfd. rewrite Hst in Ecfd.
-        unfold one in Ecfd.
-        destruct (compileOne e co cf (ST :: tab) cpv (sp + 1) (pc + 1 + 0 + 3) (f_type fd) cpv) as [cv|] eqn:Ecv; [|discriminate Ecfd].
-        rewrite Hom in Ecfd. cbn [app] in Ecfd. injection Ecfd as <-.
-        replace (pc + 1 + 0 + 3) with (pc + 4) in Ecv by lia.
-        assert (Hcv : code_ok (f_type fd) cv (pc + 4)).
-        { eapply (IHph fo (f_type fd) Hin); [|exact Ecv].
-          intros b [<-|Hb].
+        assert (Hom : forall L, omitCode e co fd L = COk (if F_omitempty fd then [omit_op (f_type fd) L] else [])).
+        { intro L. unfold omitCode, cbind. rewrite Hoz, Hnull. destruct (F_omitempty fd) eqn:Eo.
+          - destruct (Hoe eq_refl) as [Hom _]. rewrite (omit_code _ L Hom).
+            destruct (f_type fd) as [kk0| | | | | | |]; try discriminate Hom; reflexivity.
+          - destruct (rkind_of e (f_type fd)); reflexivity. }
+        rewrite !Hom in Ecfd. unfold cbind in Ecfd. rewrite Hpath in Ecfd. cbn [pathCode app length] in Ecfd.
+        set (no := length (if F_omitempty fd then [omit_op (f_type fd) 0] else [])) in *.
+        set (pc0 := pc + 1 + no) in *.
+        destruct (if F_stringize fd
+                  then compileStructFieldStr e (compileOne e co cf) (ST :: tab) cpv (sp + 1) (pc0 + 3) (f_type fd)
+                  else one (compileOne e co cf) (ST :: tab) cpv (sp + 1) (pc0 + 3) (f_type fd) cpv) as [cv|] eqn:Ecv; [|discriminate Ecfd].
+        rewrite Hom in Ecfd. injection Ecfd as <-.
+        assert (Htab' : tab_above (ST :: tab) (f_type fd)).
+        { intros b [<-|Hb].
           - rewrite tsize_struct. pose proof (phys_size_in ph fo (f_type fd) Hin). lia.
           - specialize (Htab b Hb). rewrite tsize_struct in Htab. pose proof (phys_size_in ph fo (f_type fd) Hin). lia. }
-        (* layout of the field's code *)
+        assert (Hcv : code_okq (f_type fd) cv (pc0 + 3) (F_stringize fd)).
+        { destruct (F_stringize fd) eqn:Es.
+          - destruct (Hsq eq_refl) as [Hqt _]. destruct (f_type fd) as [kq| | | | | | |] eqn:Eft; try discriminate Hqt.
+            eapply quoted_ok; [exact Hqt|exact Htab'|exact Ecv].
+          - apply code_okq_false. eapply (IHph fo (f_type fd) Hin); [exact Htab'|exact Ecv]. }
+        (* layout *)
+        set (tx := quote (f_name fd) false ++ [58%N]) in *.
+        set (L := pc0 + 3 + length cv) in *.
         match type of Hcode with code_at _ _ (?fc ++ _) => set (fcode := fc) in * end.
         pose proof (code_at_app_l _ _ _ _ Hcode) as Hf.
         pose proof (code_at_app_r _ _ _ _ Hcode) as Hrest.
-        assert (Hfl : length fcode = 4 + length cv + 1) by (unfold fcode; cbn [length app]; rewrite app_length; cbn [length]; lia).
         assert (I0 : nth_error prog pc = Some (OP_index fo)) by (eapply code_hd; exact Hf).
-        assert (I1 : nth_error prog (pc + 1) = Some (OP_cond_testc (pc + 1 + 0 + 2))) by (eapply code_nth; [exact Hf|reflexivity]).
-        assert (I2 : nth_error prog (pc + 2) = Some (OP_byte 44)) by (eapply code_nth; [exact Hf|reflexivity]).
-        assert (I3 : nth_error prog (pc + 3) = Some (OP_text (quote (f_name fd) false ++ [58%N]))) by (eapply code_nth; [exact Hf|reflexivity]).
-        assert (Ccv : code_at prog (pc + 4) cv).
-        { intros i ins Hnth. rewrite <- Nat.add_assoc. apply Hf. unfold fcode. cbn [app]. cbn [Nat.add nth_error].
-          rewrite nth_error_app1; [exact Hnth|]. apply nth_error_Some. congruence. }
-        assert (I4 : nth_error prog (pc + 4 + length cv) = Some OP_load).
-        { rewrite <- Nat.add_assoc. apply Hf. unfold fcode. cbn [app]. cbn [Nat.add nth_error]. apply nth_mid. }
-        (* run *)
-        set (qn := quote (f_name fd) false) in *. clearbody qn. injection Henc as <-.
-        set (rfield := {| rx := rx r0; rcond := false; rinit := rinit r0; rp := padd (rp r0) fo; rq := rq r0 |}).
-        assert (Hpre : exists m1, steps m1 (mks prog pc flg (rc r0 c) rest o (r0 :: kk) rqs)
-                                   (mks prog (pc + 4) flg rfield rest ((qn ++ [58%N]) :: (if c then o else [44%N] :: o)) (r0 :: kk) rqs)).
-        { destruct c.
-          - exists 3. eapply steps_S; [apply step_index; exact I0|]. replace (S pc) with (pc + 1) by lia.
-            eapply steps_S; [apply step_cond_testc; exact I1|]. cbn [rc set_p rcond rx rinit rp rq].
-            replace (pc + 1 + 0 + 2) with (pc + 3) by lia.
-            eapply steps_S; [apply step_text; exact I3|]. replace (S (pc + 3)) with (pc + 4) by lia. apply steps_O.
-          - exists 4. eapply steps_S; [apply step_index; exact I0|]. replace (S pc) with (pc + 1) by lia.
-            eapply steps_S; [apply step_cond_testc; exact I1|]. cbn [rc set_p rcond rx rinit rp rq].
-            replace (S (pc + 1)) with (pc + 2) by lia.
-            eapply steps_S; [apply step_byte; exact I2|]. replace (S (pc + 2)) with (pc + 3) by lia.
-            eapply steps_S; [apply step_text; exact I3|]. replace (S (pc + 3)) with (pc + 4) by lia. apply steps_O. }
-        destruct Hpre as [m1 Hpre].
-        destruct (Hcv flg prog rfield rest ((qn ++ [58%N]) :: (if c then o else [44%N] :: o)) (r0 :: kk) rqs x fuel addr a Hflg Ccv)
-          as (m2 & o2 & rq2 & Hst2 & Ho2).
-        { unfold rfield. cbn [rp]. eapply loc_field; eassumption. }
-        { eapply Hty; eassumption. }
-        { exact Ea. }
-        { pose proof (need_list_in vs x (nth_error_In _ _ Hx)). cbn [length]. lia. }
-        destruct (IH cf tab cpv sp (pc + length fcode) cfs Htab Ecfs flg prog r0 rest o2 kk rq2 vs false fuel addr restb Hflg Hrest Hloc Hlen Hty Erest Hstk)
-          as (m3 & o3 & rq3 & Hst3 & Ho3).
-        exists (m1 + m2 + 1 + m3), o3, rq3. split.
-        + eapply steps_trans; [eapply steps_trans; [eapply steps_trans; [exact Hpre|exact Hst2]|]|].
-          * apply steps_one. rewrite step_load by exact I4. reflexivity.
-          * replace (S (pc + 4 + length cv)) with (pc + length fcode) by lia.
+        assert (Hsz : (0 < sizeof e (f_type fd))%N) by (eapply layout_pos; eassumption).
+        destruct (F_omitempty fd) eqn:Eo.
+        + (* omitempty *)
+          destruct (Hoe eq_refl) as [Hom1 Hst0]. cbn [length] in no. cbn [andb] in Henc.
+          assert (Hfl : length fcode = 2 + 3 + length cv + 1) by (unfold fcode; cbn [length app]; rewrite app_length; cbn [length]; lia).
+          assert (I1 : nth_error prog (pc + 1) = Some (omit_op (f_type fd) L)) by (eapply code_nth; [exact Hf|reflexivity]).
+          assert (Cem : code_at prog pc0 ([OP_cond_testc (pc0 + 2); OP_byte 44; OP_text tx] ++ cv ++ [OP_load])).
+          { pose proof (code_at_app_r prog pc [OP_index fo; omit_op (f_type fd) L] _ Hf) as Hx2. cbn [length] in Hx2.
+            assert (E : pc + 2 = pc0) by (unfold pc0, no; lia). rewrite E in Hx2. exact Hx2. }
+          assert (Hstep1 : step P e co (mks prog (pc + 1) flg (set_p (rc r0 c) (padd (rp r0) fo)) rest o (r0 :: kk) rqs) =
+                           Running (mks prog (if is_empty_value e (f_type fd) x then L else S (pc + 1)) flg (set_p (rc r0 c) (padd (rp r0) fo)) rest o (r0 :: kk) rqs)).
+          { apply omit_step; try assumption. }
+          destruct (is_empty_value e (f_type fd) x) eqn:Eemp.
+          * (* omitted *)
+            destruct (IH cf tab cpv sp (pc + length fcode) cfs Htab Ecfs flg prog r0 rest o kk rqs vs c fuel addr items Hflg Hrest Hloc Hlen Hty Henc Hstk)
+              as (m3 & o3 & rq3 & c3 & Hst3 & Ho3).
+            assert (I4 : nth_error prog L = Some OP_load).
+            { pose proof (code_at_app_r _ _ _ _ Cem) as Hy. cbn [length] in Hy. pose proof (code_at_app_r _ _ _ _ Hy) as Hy2.
+              unfold L. eapply code_hd. exact Hy2. }
+            exists (3 + m3), o3, rq3, c3. split; [|exact Ho3].
+            eapply steps_S; [apply step_index; exact I0|]. replace (S pc) with (pc + 1) by lia.
+            eapply steps_S; [exact Hstep1|].
+            eapply steps_S; [apply step_load; exact I4|]. cbn [rc set_p rcond rx rinit rp rq].
+            replace (S L) with (pc + length fcode) by (unfold L, pc0, no; lia).
             replace (pc + length (fcode ++ cfs)) with (pc + length fcode + length cfs) by (rewrite app_length; lia).
-            assert (Hfin : (match fd :: fs with [] => c | _ => false end) = (match fs with [] => false | _ => false end)) by (destruct fs; reflexivity).
-            rewrite Hfin. exact Hst3.
-        + rewrite Ho3, Ho2, out_cons. destruct c; [|rewrite out_cons]; rewrite <- ?app_assoc; reflexivity.
+            exact Hst3.
+          * unfold sbind in Henc.
+            destruct (std_enc e Qraw fuel (f_type fd) x addr (F_stringize fd)) as [a|] eqn:Ea; [|discriminate Henc].
+            destruct (enc_fields fuel ST (VStruct vs) addr fs false) as [restb|] eqn:Erest; [|discriminate Henc].
+            injection Henc as <-.
+            destruct (emit_part _ _ _ _ tx Hcv flg prog r0 rest o kk rqs c fo x fuel addr a Hflg Cem Hlx Htx Ea ltac:(lia)) as (m2 & o2 & rq2 & Hst2 & Ho2).
+            destruct (IH cf tab cpv sp (pc + length fcode) cfs Htab Ecfs flg prog r0 rest o2 kk rq2 vs false fuel addr restb Hflg Hrest Hloc Hlen Hty Erest Hstk)
+              as (m3 & o3 & rq3 & c3 & Hst3 & Ho3).
+            exists (2 + m2 + m3), o3, rq3, c3. split.
+            -- eapply steps_S; [apply step_index; exact I0|]. replace (S pc) with (pc + 1) by lia.
+               eapply steps_S; [exact Hstep1|]. replace (S (pc + 1)) with pc0 by (unfold pc0, no; lia).
+               eapply steps_trans; [exact Hst2|].
+               replace (pc0 + 3 + length cv + 1) with (pc + length fcode) by (unfold pc0, no; lia).
+               replace (pc + length (fcode ++ cfs)) with (pc + length fcode + length cfs) by (rewrite app_length; lia).
+               exact Hst3.
+            -- rewrite Ho3, Ho2. unfold tx, quote. cbn [app]. repeat (rewrite <- app_assoc; cbn [app]). reflexivity.
+        + (* no omitempty *)
+          cbn [length] in no. cbn [andb] in Henc. unfold sbind in Henc.
+          destruct (std_enc e Qraw fuel (f_type fd) x addr (F_stringize fd)) as [a|] eqn:Ea; [|discriminate Henc].
+          destruct (enc_fields fuel ST (VStruct vs) addr fs false) as [restb|] eqn:Erest; [|discriminate Henc].
+          injection Henc as <-.
+          assert (Hfl : length fcode = 1 + 3 + length cv + 1) by (unfold fcode; cbn [length app]; rewrite app_length; cbn [length]; lia).
+          assert (Cem : code_at prog pc0 ([OP_cond_testc (pc0 + 2); OP_byte 44; OP_text tx] ++ cv ++ [OP_load])).
+          { pose proof (code_at_app_r prog pc [OP_index fo] _ Hf) as Hx2. cbn [length] in Hx2.
+            assert (E : pc + 1 = pc0) by (unfold pc0, no; lia). rewrite E in Hx2. exact Hx2. }
+          destruct (emit_part _ _ _ _ tx Hcv flg prog r0 rest o kk rqs c fo x fuel addr a Hflg Cem Hlx Htx Ea ltac:(lia)) as (m2 & o2 & rq2 & Hst2 & Ho2).
+          destruct (IH cf tab cpv sp (pc + length fcode) cfs Htab Ecfs flg prog r0 rest o2 kk rq2 vs false fuel addr restb Hflg Hrest Hloc Hlen Hty Erest Hstk)
+            as (m3 & o3 & rq3 & c3 & Hst3 & Ho3).
+          exists (1 + m2 + m3), o3, rq3, c3. split.
+          * eapply steps_S; [apply step_index; exact I0|]. replace (S pc) with pc0 by (unfold pc0, no; lia).
+            eapply steps_trans; [exact Hst2|].
+            replace (pc0 + 3 + length cv + 1) with (pc + length fcode) by (unfold pc0, no; lia).
+            replace (pc + length (fcode ++ cfs)) with (pc + length fcode + length cfs) by (rewrite app_length; lia).
+            exact Hst3.
+          * rewrite Ho3, Ho2. unfold tx, quote. cbn [app]. repeat (rewrite <- app_assoc; cbn [app]). reflexivity.
     Qed.
 
     Hypothesis Hfields : Forall (field_ok ph) fsall.
@@ -891,7 +1091,7 @@ Section Main.
       assert (I3 : nth_error prog (pc + 3 + length cf0) = Some OP_drop) by (eapply code_hd; exact H2).
       assert (I4 : nth_error prog (pc + 3 + length cf0 + 1) = Some (OP_byte 125)) by (eapply code_nth; [exact H2|reflexivity]).
       destruct (fields_exec fsall Hfields cf tab cpv sp (pc + 3) cf0 Htab Ecf flg prog r rest ([123%N] :: o) kk rqs vs true fuel addr items Hflg Cf Hloc Hlen Hall Eit)
-        as (n & o1 & rq1 & Hst & Ho).
+        as (n & o1 & rq1 & c1 & Hst & Ho).
       { cbn [need] in Hstk. unfold need_list. lia. }
       match goal with |- context [pc + length ?cc] =>
         replace (pc + length cc) with (pc + 3 + length cf0 + 2) by (cbn [length]; rewrite app_length; cbn [length]; lia) end.
@@ -1030,6 +1230,7 @@ Section Agree.
   Hypothesis Hu : forall z, (0 <= z < 2 ^ 64)%Z -> p_u64toa P z = utoa (Z.to_N z).
   Hypothesis Hq : forall s d, p_quote P s d = quote s d.
   Hypothesis Hbr : b_recurse P <> b_empty_arr P.
+  Hypothesis Hnull : EncOnlyOmitNull co = false.
   Hypothesis Hflg : has_opts std_flags (b_empty_arr P) = false.
   Hypothesis Hinline : 0 < MaxInlineDepth co.
 
@@ -1041,7 +1242,7 @@ Section Agree.
     agree (encode P e co std_flags (Some (t, v))) res.
   Proof.
     intros t v fuel res prog Ht Hcp Hv Hc Hstd Hstk.
-    destruct (exec_frag P e co Hi Hu Hq Hbr Hinline std_flags t v fuel res prog Hflg Ht Hcp Hv Hc Hstd Hstk) as (s0 & k & Hcall & Hrun).
+    destruct (exec_frag P e co Hi Hu Hq Hbr Hnull Hinline std_flags t v fuel res prog Hflg Ht Hcp Hv Hc Hstd Hstk) as (s0 & k & Hcall & Hrun).
     unfold agree, encode, exec_top. rewrite Hcall.
     assert (Hk : k < 2 ^ (40 + k)) by (pose proof (pow2_gt (40 + k)); lia).
     pose proof (Hrun (40 + k) Hk) as H1.
@@ -1056,23 +1257,23 @@ Section Agree.
 End Agree.
 
 Theorem marshal_agree_jit : forall e co t v fuel res prog,
-  0 < MaxInlineDepth co ->
+  0 < MaxInlineDepth co -> EncOnlyOmitNull co = false ->
   frag e t -> compilable e co t -> has_type (fok prims_jit) t v -> compile e co t false = COk prog ->
   std_marshal e Qraw fuel (Some (t, v)) = SOk res -> (need v <= 4096)%nat ->
   agree (encode prims_jit e co std_flags (Some (t, v))) res.
 Proof.
-  intros e co t v fuel res prog Hin Ht Hcp Hv Hc Hs Hn.
+  intros e co t v fuel res prog Hin Hnu Ht Hcp Hv Hc Hs Hn.
   eapply (marshal_agree_frag prims_jit e co jit_i64 jit_u64); try eassumption; try reflexivity; try discriminate.
   change (p_stack prims_jit) with 4096%N. lia.
 Qed.
 
 Theorem marshal_agree_vm : forall e co t v fuel res prog,
-  0 < MaxInlineDepth co ->
+  0 < MaxInlineDepth co -> EncOnlyOmitNull co = false ->
   frag e t -> compilable e co t -> has_type (fok prims_vm) t v -> compile e co t false = COk prog ->
   std_marshal e Qraw fuel (Some (t, v)) = SOk res -> (need v <= 4096)%nat ->
   agree (encode prims_vm e co std_flags (Some (t, v))) res.
 Proof.
-  intros e co t v fuel res prog Hin Ht Hcp Hv Hc Hs Hn.
+  intros e co t v fuel res prog Hin Hnu Ht Hcp Hv Hc Hs Hn.
   eapply (marshal_agree_frag prims_vm e co); try eassumption; try reflexivity; try discriminate.
   change (p_stack prims_vm) with 4096%N. lia.
 Qed.
@@ -1092,7 +1293,7 @@ Example frag_example :
   encode prims_jit [] default_copts std_flags (Some (ex_ty, ex_val)) = Done ex_out.
 Proof.
   split; [|split; [|split; [|split]]].
-  - cbn. repeat split; try lia; repeat constructor; eexists; repeat split; cbn; auto.
+  - cbn. repeat split; try lia; repeat constructor; eexists; repeat split; try (left; reflexivity); cbn; auto.
   - cbn. split; [|repeat split]. intro pv. destruct pv; eexists; vm_compute; reflexivity.
   - apply HT_slice. intros x [<-|[<-|[]]].
     + apply HT_ptr. apply HT_struct; [reflexivity|].
@@ -1101,6 +1302,33 @@ Proof.
       * injection Hk as <- <-. injection Hx as <-. apply HT_str.
       * destruct k; discriminate Hk.
     + apply HT_ptr_nil.
+  - vm_compute. reflexivity.
+  - vm_compute. reflexivity.
+Qed.
+
+(* non-vacuity of the field options: `,string` on an int64, omitempty on a false bool and on a non-empty string *)
+Definition ex2_ty : ty :=
+  TStruct 32 [(0%N, TPrim KInt64); (8%N, TPrim KBool); (16%N, TPrim KString)]
+    [Field [110%N] 2 (TPrim KInt64) [(0%N, false)]; Field [98%N] 1 (TPrim KBool) [(8%N, false)]; Field [115%N] 1 (TPrim KString) [(16%N, false)]].
+Definition ex2_val : val := VStruct [VInt 5; VBool false; VStr [120%N]].
+Definition ex2_out : bytes := [123; 34; 110; 34; 58; 34; 53; 34; 44; 34; 115; 34; 58; 34; 120; 34; 125]%N.
+
+Example frag_example_opts :
+  frag [] ex2_ty /\ compilable [] default_copts ex2_ty /\ has_type (fok prims_jit) ex2_ty ex2_val /\
+  std_marshal [] Qraw 10 (Some (ex2_ty, ex2_val)) = SOk ex2_out /\
+  encode prims_jit [] default_copts std_flags (Some (ex2_ty, ex2_val)) = Done ex2_out.
+Proof.
+  split; [|split; [|split; [|split]]].
+  - cbn. repeat split; try lia. repeat constructor.
+    + exists 0%N. repeat split; [right; right; split; reflexivity|cbn; auto].
+    + exists 8%N. repeat split; [right; left; split; reflexivity|cbn; auto].
+    + exists 16%N. repeat split; [right; left; split; reflexivity|cbn; auto].
+  - cbn. split; [|repeat split]. intro pv. destruct pv; eexists; vm_compute; reflexivity.
+  - apply HT_struct; [reflexivity|]. intros k o t x Hk Hx. destruct k as [|[|[|k]]]; cbn in Hk, Hx.
+    + injection Hk as <- <-. injection Hx as <-. apply HT_int. cbn. lia.
+    + injection Hk as <- <-. injection Hx as <-. apply HT_bool.
+    + injection Hk as <- <-. injection Hx as <-. apply HT_str.
+    + destruct k; discriminate Hk.
   - vm_compute. reflexivity.
   - vm_compute. reflexivity.
 Qed.
